@@ -191,6 +191,22 @@ def run(idx, rep, tier):
             dim = norm_idx(nospace(shp.elts[0])) if isinstance(shp, ast.Tuple) and shp.elts else nospace(shp) if shp is not None else "?"
             left = nospace(n.left)
             want = left[:-2] + ".shape[0]" if left.endswith((".T", ".H")) else left + ".shape[1]"
+            # a length written with a symbolic axis (`self.shape[axis]`): the conditions on the way to this product may fix it
+            sym_ax = isinstance(shp, ast.Tuple) and shp.elts and isinstance(shp.elts[0], ast.Subscript) and isinstance(shp.elts[0].slice, ast.Name)
+            if sym_ax:
+                axn = shp.elts[0].slice.id
+                fixed = None
+                for t_, pol_ in df.branch_conditions(n, m.node):
+                    if isinstance(t_, ast.Compare) and len(t_.ops) == 1 and isinstance(t_.left, ast.Name) and t_.left.id == axn:
+                        c_ = t_.comparators[0]
+                        v_ = c_.value if isinstance(c_, ast.Constant) else (-c_.operand.value if isinstance(c_, ast.UnaryOp) and isinstance(c_.op, ast.USub) and isinstance(c_.operand, ast.Constant) else None)
+                        if isinstance(v_, int) and ((isinstance(t_.ops[0], ast.Eq) and pol_) or (isinstance(t_.ops[0], ast.NotEq) and not pol_)):
+                            fixed = v_
+                if fixed is None:
+                    rep.undecided("canonical-vector", f"{m.name}:product{k_site}", f"`{ast.unparse(n)[:60]}`: the length `{nospace(shp)}` of the canonical vector depends on `{axn}`, which the "
+                                  "conditions on the way do not fix", locs=[idx.loc(m.module, n)])
+                    continue
+                dim = norm_idx(nospace(shp.elts[0].value) + f"[{fixed}]")
             ok = dim == want
             rep.decide(ok, "canonical-vector", f"{m.name}:product{k_site}", f"`{ast.unparse(n)[:60]}` multiplies a canonical vector of length {nospace(shp) if shp is not None else '?'}" +
                        ("" if ok else f": the contracted dimension of `{left}` is {want.replace('[0]', '[-2]').replace('[1]', '[-1]')} (rows of non-square operators fail)"),
